@@ -77,3 +77,6 @@ func VerifCheckCapture(db *DB, pos0 ltx.Pos, before, after [][]byte, wal bool) {
 
 // VerifLTXNames lists the transaction files of db.
 func VerifLTXNames(db *DB) []string { return verifLTXNames(db) }
+
+// VerifImageBytes: a valid database image of n pages (symbolic content).
+func VerifImageBytes(tag string, n int, wal bool) []byte { return verifJoin(verifImage(tag, n, wal)) }
